@@ -50,7 +50,7 @@ for name, pid, meta in results:
     if not meta.get("caught"):
         missed += 1
     rows.append("| %s | %s | %s | %s | %s |" % (pid, name, (meta.get("summary") or "").replace("|", "/")[:220], (meta.get("needs_to_manifest") or "").replace("|", "/")[:200],
-                ("caught by ./check %s (quick)" % pid if meta.get("caught") else "MISSED") + ((" - first missed, check strengthened: " + meta["strengthened"]) if meta.get("strengthened") else "")))
+                ("caught by ./check %s (quick)" % pid if meta.get("caught") else "MISSED") + ((" - first missed, check strengthened: " + meta["strengthened"]) if meta.get("strengthened") else "") + ((" - " + meta["not_strengthened"]) if meta.get("not_strengthened") and not meta.get("caught") else "")))
 with open(os.path.join(SD, "RESULTS.md"), "w") as f:
     f.write("# Seeded changes and the checks that catch them\n\n| property | seeded change | what it does | what it needs to manifest | outcome |\n|---|---|---|---|---|\n" + "\n".join(rows) + "\n")
 sys.exit(1 if missed else 0)
